@@ -42,7 +42,7 @@ def _case(draw, thorough):
         if r > 0 or draw(st.integers(0, 3)) == 0:
             for _ in range(draw(st.integers(0, 2))):
                 k = draw(st.sampled_from(["replace_init", "replace_init", "drop_init", "restore_init", "add_metric",
-                                          "assign_metrics", "add_cons", "add_lmi"]))
+                                          "assign_metrics", "add_cons", "add_lmi", "decompose", "decompose", "new_sample"]))
                 if k == "replace_init":
                     # E index of the initial-condition expression is unknown here: use the interpreter's convention
                     edits.append(["replace_init_same", draw(st.sampled_from([0.25, 0.5, 2, 4, 1, 9]))])
@@ -61,6 +61,10 @@ def _case(draw, thorough):
                 elif k == "add_cons":
                     edits.append(["add_cap", draw(st.integers(0, 30)), draw(st.integers(0, 30)),
                                   draw(st.sampled_from([0.01, 0.1, 1, 10]))])
+                elif k == "decompose":
+                    edits.append(["decompose", draw(st.integers(0, 3)), draw(st.integers(0, 40)), draw(st.integers(0, 3))])
+                elif k == "new_sample":
+                    edits.append(["new_sample", draw(st.integers(0, 40))])
                 else:
                     edits.append(["add_lmi_t", draw(st.integers(0, 5)), draw(st.booleans())])
         opts = draw(gen.solve_options(solvers=("CLARABEL", "CLARABEL", "CLARABEL", "SCS"), allow_drh=True))
@@ -133,6 +137,15 @@ def apply_edit(it, ed, state):
     elif k == "add_cap":
         it.step(["expr", "dot", ed[1], ed[2]])
         it.step(["cons", "pep", len(env.E) - 1, "<=", ed[3], None])
+    elif k == "decompose":
+        # decompose one more point in an existing partition (no-op for models without partition)
+        if env.B:
+            it.step(["block", ed[1], ed[2], ed[3]])
+    elif k == "new_sample":
+        # one more evaluation of the first (leaf) function at an existing point: new class constraints at the next solve
+        leaf = [i for i, m in enumerate(env.Fmeta) if m.get("leaf")]
+        if leaf:
+            it.step(["grad", leaf[0], ed[1]])
     elif k == "add_lmi_t":
         if not env.declared_metrics:
             return
@@ -189,7 +202,8 @@ def check_case(case, ctx):
         if oracles.solver_gave_up(ob, ctx):
             return
         pep = env.pep
-        out = {"result": ob.result, "status": ob.status, "size": data_size(ob), "n_metrics": len(env.declared_metrics)}
+        out = {"result": ob.result, "status": ob.status, "size": data_size(ob), "n_metrics": len(env.declared_metrics),
+               "init_dropped": bool(getattr(env, "dropped", []))}
         outcomes.append(out)
         for c in ob.sent_constraints:
             ever_sent[id(c)] = c
@@ -267,6 +281,8 @@ def check_case(case, ctx):
         cert = oracles.certificate(pep, ob.sent_constraints, ob.sent_lmis)
         if "shape_error" in cert:
             ctx.fail("multiplier-shape", cert["shape_error"])
+        elif cert["scale"] > 1e6 or float(np.max(np.abs(G_solver))) > 1e6 * (1 + abs(ob.result)):
+            ctx.label("inconclusive:numerically-unbounded-model")
         else:
             tol = k * (cert["scale"] + abs(cert["const"]))
             if cert["max_nonconst"] > tol:
@@ -293,6 +309,7 @@ def check_case(case, ctx):
                      "returns a multiplier (%r) of an earlier solve" % (r, d))
             break
         out["primal"] = float(pep.objective.eval())
+        out["gmax"] = float(np.max(np.abs(G_solver)))
 
     # ---- newly built equivalent models ----------------------------------------------------------------------------
     for r, rnd in enumerate(case["rounds"]):
@@ -324,9 +341,35 @@ def check_case(case, ctx):
             continue
         if ob2.result is None:
             continue
+        if out.get("init_dropped"):
+            # without its initial condition the model is at best bounded by huge caps: the finite numbers solvers
+            # return on such badly scaled problems are not reproducible; only finite-vs-None and data sizes are compared
+            ctx.label("inconclusive:finite-value-without-initial-condition")
+            continue
+        if sc == "SCS" and opts.get("drh") and opts.get("ret") == "primal":
+            # SCS (first order, ~1e-4) on the badly scaled log-det / trace re-solves: the primal value it returns is
+            # not accurate enough to be compared between two runs; only the dual return is compared for SCS
+            ctx.label("inconclusive:scs-heuristic-primal-value")
+            continue
         k = oracles.TOL[sc]
         scale = 1 + abs(ob2.result)
-        tol = 3 * k * scale * (5 if opts.get("drh") and opts.get("ret") == "primal" else 1)
+        # both runs must be accurately solved (small primal-dual gap), otherwise the comparison says nothing about PEPit
+        try:
+            cert2 = oracles.certificate(it2.env.pep, ob2.sent_constraints, ob2.sent_lmis)
+            gap2 = abs(cert2["const"] - float(it2.env.pep.objective.eval())) if "const" in cert2 else 0.0
+        except Exception:  # noqa
+            gap2 = 0.0
+        gap1 = abs(out["dual"] - out["primal"]) if ("dual" in out and "primal" in out) else 0.0
+        g2 = float(np.max(np.abs(np.asarray(it2.env.pep.wrapper.get_primal_variables()[0], dtype=float))))
+        if max(g2, out.get("gmax", 0.0)) > 1e6 * scale:
+            # Gram entries many orders of magnitude above the optimal value: a numerically unbounded model on which the
+            # solver's 'optimal' numbers are not reproducible
+            ctx.label("inconclusive:numerically-unbounded-model")
+            continue
+        if not opts.get("drh") and max(gap1, gap2) > k * scale:
+            ctx.label("inconclusive:large-duality-gap")
+            continue
+        tol = (3 if sc != "SCS" else 10) * k * scale * (5 if opts.get("drh") and opts.get("ret") == "primal" else 1)
         if opts.get("drh") and opts.get("ret") == "primal":
             tol += 2.5 * opts.get("tol_dr", 1e-4)
         if abs(ob2.result - out["result"]) > tol:
